@@ -80,7 +80,7 @@ def finish(b, lhs, rhs, rng, tol=1e-9):
     return {'lines': lines, 'pairs': pairs, 'tol': tol}
 
 
-def gen_identity(rng, which):
+def gen_identity(rng, which, big=False):
     b = B()
     V = lambda sh, kind='any': gen_ops.vals(rng, sh, kind)
     if which == 'ce':
@@ -152,12 +152,14 @@ def gen_identity(rng, which):
         while True:
             (H, kh, sh_, ph, dh), (W, kw, sw, pw, dw) = gen_ops.geom2(rng)
             if ph <= kh // 2 and pw <= kw // 2: break
-        if rng.chance(.15):        # a window of more than 256 elements
+        if big or rng.chance(.1):        # a window of more than 256 elements
             n, c = 1, 1
             H, W = rng.randint(17, 20), rng.randint(17, 20); kh, kw = rng.pick([(17, 17), (16, 17), (H, W)])
             sh_, sw, ph, pw, dh, dw = rng.randint(1, 3), rng.randint(1, 3), 0, 0, 1, 1
         lh = (H + 2 * ph - dh * (kh - 1) - 1) // sh_ + 1; lw = (W + 2 * pw - dw * (kw - 1) - 1) // sw + 1
-        x = b.leaf((n, c, H, W), V((n, c, H, W), 'distinct'))
+        xv = V((n, c, H, W), 'distinct')
+        if big: xv = sorted(xv)          # ascending in row-major order: the maximum of every window is its LAST element (position kh*kw - 1 >= 256)
+        x = b.leaf((n, c, H, W), xv)
         name = 'max_pool2d' if which == 'maxpool' else 'avg_pool2d'
         l = b.op(name, [x], show_ints((kh, kw)), show_ints((sh_, sw)), show_ints((ph, pw)), show_ints((dh, dw)))
         pad = float('-inf') if which == 'maxpool' else 0.0
@@ -330,7 +332,7 @@ def cases(rng, tier):
     reps = 8 if tier == 'quick' else 300
     for w in IDS:
         for _ in range(reps * (3 if w in ('ce', 'logsoftmax', 'bcel') else 1)):      # the numerically delicate identities get more operand sets
-            c = gen_identity(rng, w)
+            c = gen_identity(rng, w, big=True) if (w in ('maxpool', 'avgpool') and _ == 0) else gen_identity(rng, w)
             c['id'] = w
             c['desc'] = w + ': ' + ' ; '.join(c['lines'])[:500]
             out.append(c)
